@@ -30,6 +30,7 @@ type SpecEnv struct {
 	alloc0 string // allocation watermark "before" (for fresh())
 	cOwn        bool     // evaluating the own contract of a C function (parameters have their declared types)
 	bound       []string // names of the bound variables in scope
+	lastCands   []ast.Expr // (scratch) the sequences indexed by the bound variable in the clause just analysed
 	pats        *[]string // trigger candidates of the innermost enclosing quantifier (selects on its bare bound variable)
 	iter        string // map iterator of the enclosing loop (for visited())
 	iterKeySort string
@@ -691,16 +692,24 @@ func (e *SpecEnv) evalCall(c *ast.CallExpr) SVal {
 			}
 			body = sub.eval(args[3]).S
 			if bx != nil && !g.M.BV {
-				// name the element of the chosen sequence in every instance (touch_* is true of everything): when a goal
-				// is split into its conjuncts, each part still carries the term the hypotheses about that sequence trigger on
-				func() {
-					defer func() { recover() }()
-					cell := sub.eval(&ast.IndexExpr{X: bx, Index: ast.NewIdent(k)})
-					switch cell.Sort {
-					case "Int", "Bool", "Ptr", "Slice", "Iface":
-						guard = sAnd(guard, app("touch_"+cell.Sort, cell.S))
-					}
-				}()
+				// name the elements of every sequence the clause indexes by the bound variable (touch_* is true of everything):
+				// when a goal is split into its conjuncts, each part still carries the terms the hypotheses about those
+				// sequences trigger on, whichever sequence a hypothesis was rebased on
+				seen := map[string]bool{}
+				for _, cx := range e.lastCands {
+					func() {
+						defer func() { recover() }()
+						cell := sub.eval(&ast.IndexExpr{X: cx, Index: ast.NewIdent(k)})
+						if seen[cell.S] {
+							return
+						}
+						seen[cell.S] = true
+						switch cell.Sort {
+						case "Int", "Bool", "Ptr", "Slice", "Iface":
+							guard = sAnd(guard, app("touch_"+cell.Sort, cell.S))
+						}
+					}()
+				}
 			}
 		} else {
 			guard = "true"
@@ -1189,29 +1198,13 @@ func (e *SpecEnv) indexBaseX(body ast.Expr, k string) (string, ast.Expr) {
 	if len(cands) == 0 {
 		return "", nil
 	}
-	// When several sequences are indexed by the bound variable, the same one must be chosen in every clause that relates
-	// them (hypotheses and goals then share their trigger): prefer a parameter of the function, then alphabetical order.
-	isParam := func(src string) bool {
-		if g.fn != nil {
-			for _, p := range g.fn.Params {
-				if p.Name() == src {
-					return true
-				}
-			}
-		}
-		return false
+	// the first sequence in source order is the one the clause is rebased on
+	var xs []ast.Expr
+	for _, c := range cands {
+		xs = append(xs, c.x)
 	}
-	best := cands[0]
-	for _, c := range cands[1:] {
-		bp, cp := isParam(best.src), isParam(c.src)
-		if (cp && !bp) || (cp == bp && c.src < best.src) {
-			best = c
-		}
-	}
-	if len(cands) == 1 {
-		return cands[0].base, cands[0].x
-	}
-	return best.base, best.x
+	e.lastCands = xs
+	return cands[0].base, cands[0].x
 }
 
 func isByteType(t types.Type) bool {
